@@ -24,7 +24,10 @@ EXTRA15 = ['123456789.012345', '0.123456789012345', '99999.9999999995', '1.00000
            '1000000.5', '4503599627370.5', '0.000005', '0.0000049', '1234.56785', '0.07', '0.08', '1.004', '1e-7']
 
 SCAFFOLD = [('S', {'A1': 1.5, 'B1': 1, 'C1': '=ROUND(A1,B1)', 'D1': '=ROUNDUP(A1,B1)', 'E1': '=ROUNDDOWN(A1,B1)',
-                   'F1': '=A1%', 'G1': '=ROUND(A1%,B1)'})]
+                   'F1': '=A1%', 'G1': '=ROUND(A1%,B1)',
+                   # digit count omitted (= 0), and percents inside a chain of + and -
+                   'H1': '=ROUNDUP(A1)', 'I1': '=ROUNDDOWN(A1)', 'J1': '=ROUNDUP(A1,)', 'K1': '=ROUNDDOWN(A1,)',
+                   'L1': '=A1%+0', 'M1': '=A1%-0', 'N1': '=0+A1%', 'O1': '=A1%+A1%', 'P1': '=A1%*1'})]
 FADDR = {'ROUND': 'C1', 'ROUNDUP': 'D1', 'ROUNDDOWN': 'E1'}
 
 
@@ -118,12 +121,12 @@ def describe(func, x, n, src):
             'representable': frac == 0, 'digits_sign': 'neg' if n < 0 else ('zero' if n == 0 else 'pos'), 'src': src}
 
 
-def judge_round(case, outs, src, stats, i, vio):
+def judge_round(case, outs, src, stats, i, vio, funcs=None):
     x, n = case['x'], case['n']
     exps = {f: expected(f, x, n) for f in FUNCS}
     if len(set(exps.values())) > 1 or describe('ROUND', x, n, src)['representable']:
         stats['nontrivial'] += 1
-    for f in FUNCS:
+    for f in (funcs or FUNCS):
         o = outs[f]
         stats['validated'] += 1
         stats['out:' + S.out_label(o)] += 1
@@ -135,19 +138,19 @@ def judge_round(case, outs, src, stats, i, vio):
             vio.append({'i': i, 'desc': desc, 'expected': exps[f], 'observed': S.obs(o)})
 
 
-def pct_expected(x: str):
+def pct_expected(x: str, times=1):
     v = num(x)
     d = Decimal(repr(v)) if isinstance(v, float) else Decimal(v)
-    return float(d / 100)
+    return float(d * times / 100)
 
 
 def sig15(v):
     return float('%.15g' % v)
 
 
-def judge_pct(case, o, src, stats, i, vio):
+def judge_pct(case, o, src, stats, i, vio, times=1):
     x = case['x']
-    e = pct_expected(x)
+    e = pct_expected(x, times)
     stats['validated'] += 1
     stats['nontrivial'] += 1
     stats['out:' + S.out_label(o)] += 1
@@ -168,6 +171,13 @@ def run_ov(cases, stats):
     for i, c in enumerate(cases):
         outs = S.run(cls, [('A1', num(c['x'])), ('B1', c['n'])], ['C1', 'D1', 'E1'], stats)
         judge_round(c, dict(zip(FUNCS, outs)), 'ov', stats, i, vio)
+        if c['n'] == 0:
+            # the digit count left out means 0
+            o = S.run(cls, [('A1', num(c['x']))], ['H1', 'I1', 'J1', 'K1'], stats)
+            c0 = {'x': c['x'], 'n': 0}
+            judge_round(c0, {'ROUNDUP': o[0], 'ROUNDDOWN': o[1]}, 'ov-omitted', stats, i, vio, funcs=('ROUNDUP', 'ROUNDDOWN'))
+            judge_round(c0, {'ROUNDUP': o[2], 'ROUNDDOWN': o[3]}, 'ov-omitted-trailing-separator', stats, i, vio,
+                        funcs=('ROUNDUP', 'ROUNDDOWN'))
     return vio
 
 
@@ -215,8 +225,10 @@ def run_pct_ov(cases, stats):
     cls = S.get_class(SCAFFOLD, stats=stats)
     vio = []
     for i, c in enumerate(cases):
-        o, = S.run(cls, [('A1', num(c['x']))], ['F1'], stats)
-        judge_pct(c, o, 'ov', stats, i, vio)
+        o = S.run(cls, [('A1', num(c['x']))], ['F1', 'L1', 'M1', 'N1', 'O1', 'P1'], stats)
+        judge_pct(c, o[0], 'ov', stats, i, vio)
+        for form, oo, k in (('x%+0', o[1], 1), ('x%-0', o[2], 1), ('0+x%', o[3], 1), ('x%+x%', o[4], 2), ('x%*1', o[5], 1)):
+            judge_pct(c, oo, 'ov:' + form, stats, i, vio, times=k)
     return vio
 
 
